@@ -51,6 +51,12 @@ pub struct Policy {
 }
 impl Policy {
     pub const OFF: Policy = Policy { place: Place::Off, fill: Fill::A5 };
+    /// the "fault-free" simulated heap: behaves like an ordinary allocator, but is owned by the simulator
+    pub const CANON: Policy = Policy { place: Place::AscLifo, fill: Fill::A5 };
+    /// code 0 in a world file means "canonical", never the system allocator
+    pub fn from_world(code: u32) -> Policy {
+        if code & 0xff == 0 { Policy::CANON } else { Policy::from_code(code) }
+    }
     pub fn code(self) -> u32 {
         self.place as u32 | (self.fill as u32) << 8
     }
